@@ -17,7 +17,9 @@ PROP = "C08"
 LEVEL = "exploration"
 RULE = ("all format strings over {'{', '}', 'a', ' '} up to length 7 (quick) / 9 (thorough) x argument counts "
         "0..k+1 x rotating argument pool {'', 'x', '{}', '{', '}{', '{}{}', '}'} x {operator%, args(...)}; a seeded "
-        "random layer with typed arguments (int, negative, long long, char, double, const char*); raised exception "
+        "random layer with typed arguments (int, short, long long, unsigned long long, bool, char, unsigned char, float, "
+        "double, const char*, std::string lvalue / rvalue, string_view, char[64] and const char[64] buffers larger than "
+        "their text); raised exception "
         "messages with 1-6 mixed arguments and a format object; a scale layer (8 ... 1000 placeholders, arguments "
         "and literals of 15 ... 70000 bytes); a concurrent phase (lib/mtindep.py: 2-16 threads formatting and raising "
         "with thread-private objects under ThreadSanitizer, results compared with the serial ones); distinct_nontrivial = distinct (format, arguments, "
@@ -68,13 +70,33 @@ def _typed(rng):
     n = rng.randint(0, 5)
     texts = []
     for _ in range(n):
-        k = rng.choice("sildcp")
-        if k == "s" or k == "p":
+        k = rng.choice("sildcp" + "bBvSuftyh")      # second group: other argument TYPES with the same text
+        if k in "spbBvS":
             v = rng.choice(POOL + [b"hello world", b"\xc3\xa4", b"%d", b"\n"])
-            if k == "p":
+            if k in "pbB":
                 v = v.replace(b"\0", b"")
             kinds.append((k, v))
             texts.append(v)
+        elif k == "u":
+            v = rng.choice([0, 7, 4294967296, 18446744073709551615])
+            kinds.append((k, v))
+            texts.append(str(v).encode())
+        elif k == "t":
+            v = rng.choice([0, 1])
+            kinds.append((k, v))
+            texts.append(str(v).encode())
+        elif k == "f":
+            v = rng.choice([0.5, -2.25, 3.0, 0.125, 1024.0])
+            kinds.append((k, v))
+            texts.append(("%g" % v).encode())
+        elif k == "h":
+            v = rng.choice([0, -1, 32767, -32768, 255])
+            kinds.append((k, v))
+            texts.append(str(v).encode())
+        elif k == "y":
+            v = rng.choice([65, 97, 123, 125, 200])
+            kinds.append((k, v))
+            texts.append(bytes([v]))
         elif k == "i":
             v = rng.choice([0, 1, -1, 42, -2147483648, 2147483647, rng.randint(-10 ** 6, 10 ** 6)])
             kinds.append((k, v))
@@ -109,6 +131,9 @@ def _random_jobs(rng, n):
                     texts.append(b"y")
                 kinds, texts = kinds[:k], texts[:k]
             yield ("fmt", "%", f, kinds, texts)
+        elif r < 0.715:
+            yield ("raiseb", rng.choice([b"bad value: ", b"", b"x", b"{}"]), rng.randint(-50, 300),
+                   rng.choice([b" units", b"", b", "]))
         elif r < 0.73:
             # a manipulator in the argument list acts on that message only
             yield ("raisem", rng.choice(POOL + [b"mask 0x"]), rng.randint(-50, 300), rng.choice(["hex", "bool", "prec"]))
@@ -153,10 +178,10 @@ def _scale_jobs(rng, tier):
 
 
 def _argtok(k, v):
-    if k in "sp":
+    if k in "spbBvS":
         return "%s:%s" % (k, hx(v))
-    if k == "d":
-        return "d:%r" % v
+    if k in "df":
+        return "%s:%r" % (k, v)
     return "%s:%d" % (k, v)
 
 
@@ -181,6 +206,8 @@ def op_line(job):
         return " ".join(["RAISEF", hx(job[1])] + ["s:" + hx(a) for a in job[2]])
     if job[0] == "raisem":
         return "RAISEM s:%s i:%d %s" % (hx(job[1]), job[2], job[3])
+    if job[0] == "raiseb":
+        return "RAISEB s:%s i:%d s:%s" % (hx(job[1]), job[2], hx(job[3]))
     raise ValueError(job)
 
 
@@ -249,6 +276,15 @@ def judge(job, res):
         got = bytes.fromhex(f[2][1:])
         if got != want:
             return ("raise:message-is-not-the-concatenation", "what() = %r, expected %r" % (got, want))
+        return None
+    if job[0] == "raiseb":
+        want = job[1] + str(job[2]).encode() + job[3] + job[1]
+        f = line.split()
+        if len(f) != 3 or f[1] != "nitro":
+            return ("raise:no-library-exception", line[:200])
+        got = bytes.fromhex(f[2][1:])
+        if got != want:
+            return ("raise:message-with-character-buffer-arguments-differs", "what() = %r, expected %r" % (got, want))
         return None
     if job[0] == "raisem":
         text, num, how = job[1], job[2], job[3]
